@@ -1911,6 +1911,10 @@ func (g *goLayouts) blindIn(fd *ast.FuncDecl, depth int, seen map[*ast.FuncDecl]
 		if fn.Exported() {
 			return true
 		}
+		if enc && hd.Recv != nil && len(hd.Recv.List) == 1 && recvTypeName(g, hd) != "Writer" {
+			why = "encoding delegated to the method " + recvTypeName(g, hd) + "." + fn.Name()
+			return false
+		}
 		if depth > 0 {
 			if w := g.blindIn(hd, depth-1, seen, enc); w != "" {
 				why = w
